@@ -97,3 +97,10 @@ Proof. exact (linearizable gen_prepare_tree lo gen_tree_ok gen_prepare_ok c). Qe
 
 Lemma gen_concurrent_loaded_once lo c : reachable gen_prepare_tree lo c -> (gh_total (c_gh c) <= 1)%nat.
 Proof. exact (concurrent_loaded_once gen_prepare_tree lo gen_tree_ok gen_prepare_ok c). Qed.
+
+(* ---- the engine consults GroupFilter with the name the group is registered and reported under *)
+Lemma gen_filter_sees_final_name : filter_sees_final_name gen_filter_call_site.
+Proof.
+  intros prefix name filter. unfold gen_filter_call_site, final_name. cbn [load_group_head].
+  destruct prefix; cbn [app]; match goal with |- context [filter ?x] => destruct (filter x) end; reflexivity.
+Qed.
